@@ -251,6 +251,26 @@ Section Ops.
       repeat (apply Forall_cons || apply Forall_nil); try assumption; apply const_ok.
   Qed.
 
+  Theorem py_neg_ok n (b r : operand K) : operand_ok n b -> py_neg is_zero b = Some r -> operand_ok n r.
+  Proof.
+    intros Hb H. destruct b as [t|s|x]; cbn [py_neg py_mul] in H; inversion H; subst; cbn [operand_ok] in *.
+    - exact Hb.
+    - apply simplify_ok. apply map_scale_ok. exact Hb.
+    - exact I.
+  Qed.
+
+  Theorem py_sub_ok n (a b r : operand K) : operand_ok n a -> operand_ok n b -> py_sub is_zero a b = Some r ->
+    operand_ok n r.
+  Proof.
+    intros Ha Hb H. unfold py_sub in H.
+    assert (H' : exists nb, py_neg is_zero b = Some nb /\ py_add is_zero a nb = Some r).
+    { destruct a, b; try discriminate; destruct (py_neg is_zero _) as [nb|] eqn:E; try discriminate; exists nb; split; auto. }
+    destruct H' as [nb [Hn Hadd]]. apply (py_add_ok n a nb r Ha (py_neg_ok n b nb Hb Hn) Hadd).
+  Qed.
+
+  Theorem py_simplify_ok n (a r : operand K) : operand_ok n a -> py_simplify is_zero a = Some r -> operand_ok n r.
+  Proof. intros Ha H. destruct a as [t|s|x]; inversion H; subst. apply simplify_ok. exact Ha. Qed.
+
   (* ---------------------------------------------------------------- / *)
   Variable kinv : K -> option K.
   Hypothesis kinv_spec : forall c r, kinv c = Some r -> r * c = c1.
@@ -270,6 +290,12 @@ Section Ops.
       rewrite (py_mul_den n (OS s) (ON ic) r I H i j Hi Hj). cbn [oden].
       rewrite (mmul_nden_r (2 ^ n) (sden n s) ic i j Hi Hj). unfold mscale.
       transitivity ((ic * c) * sden n s i j); [ring|]. rewrite Hc. ring.
+  Qed.
+
+  Theorem py_div_ok n (a b r : operand K) : operand_ok n a -> py_div is_zero kinv a b = Some r -> operand_ok n r.
+  Proof.
+    intros Ha H. unfold py_div in H. destruct a as [t|s|x]; [| |discriminate]; destruct b as [t2|s2|c]; try discriminate;
+      destruct (kinv c) as [ic|]; try discriminate; apply (py_mul_ok n _ (ON ic) r Ha I H).
   Qed.
 
   (* ---------------------------------------------------------------- ** *)
